@@ -37,6 +37,7 @@ let world = ref empty_world
 let hid = ref "?"
 let gst = ref g_start
 let pending_argv : z list list option ref = ref None
+let dic = ref (adict_new Z0)       (* iniparser's dictionary: the array model of C17/DictModel.v *)
 let saveok = Array.make 8 false   (* sc_options_save is legal only after a successful parse / load_args *)
 
 let dump () =
@@ -165,6 +166,21 @@ let () = iter_lines (fun line ->
         | "sets" -> run_op op (OSetVar (nat_of_int (int_of_string a.(0)), VS (ostr_of_tok a.(1))))
         | "destroy" -> run_op op (ODestroy (nat_of_int (int_of_string a.(0))))
         | "summary" -> Printf.sprintf "summary r=0 |%s" (dump ())
+        | "dnew" | "dset" | "dget" | "dunset" | "dall" ->
+          (match op with
+           | "dnew" -> dic := adict_new (z_of_int (int_of_string a.(0)))
+           | "dset" -> dic := adict_set dictionary_hash !dic (bytes_of_tok a.(0)) (ostr_of_tok a.(1))
+           | "dunset" -> dic := adict_unset dictionary_hash !dic (bytes_of_tok a.(0))
+           | _ -> ());
+          let b = Buffer.create 256 in
+          Buffer.add_string b (Printf.sprintf "%s r=0 | n=%d size=%d" op (int_of_z !dic.ad_n) (List.length !dic.ad_cells));
+          if op = "dget" then
+            Buffer.add_string b (match adict_get dictionary_hash !dic (bytes_of_tok a.(0)) with None -> " v=!" | Some v -> " v=" ^ tok_of_ostr v);
+          if op = "dall" then
+            List.iteri (fun i c -> match c with
+              | ((Some k, v), _) -> Buffer.add_string b (Printf.sprintf " %d:%s:%s" i (tok_of_bytes k) (tok_of_ostr v))
+              | _ -> ()) !dic.ad_cells;
+          Buffer.contents b
         | "quiet" -> quiet := (a.(0) <> "0"); Printf.sprintf "quiet r=0 |%s" (dump ())
         | "dirty" -> Printf.sprintf "dirty r=0 |%s" (dump ())        (* stack content: not part of the model's world *)
         | "strtol" ->
